@@ -270,14 +270,14 @@ Proof.
       - apply Z.leb_le in E. destruct (Z.to_nat (Z.max 0 (c_int times))) eqn:Ek; [lia|reflexivity].
       - apply Z.leb_gt in E. replace (Z.max 0 (c_int times)) with 0 by lia. reflexivity. }
     rewrite Hk. reflexivity.
-  - cbn [dstep]. unfold sweep, sweep_freqs.
-    pose proof (sweep_loop_last pin (clamp0 s) (clamp0 e) (Z.max 1 (c_int steps))
-                 (c_ulong dq / Z.max 1 (c_int steps))
-                 (Z.to_nat (Z.max 1 (c_int steps))) 0%nat st) as Hl.
+  - cbn [dstep]. unfold sweep, sweep_freqs. rewrite step_delay_of_max.
+    pose proof (sweep_loop_last pin (clamp0 s) (clamp0 e) (Z.max 0 (c_int steps))
+                 (c_ulong dq / Z.max 0 (c_int steps))
+                 (Z.to_nat (Z.max 0 (c_int steps))) 0%nat st) as Hl.
     change (Z.of_nat 0) with 0 in Hl.
-    destruct (sweep_loop pin (clamp0 s) (clamp0 e) (Z.max 1 (c_int steps))
-                (c_ulong dq / Z.max 1 (c_int steps))
-                (Z.to_nat (Z.max 1 (c_int steps))) 0 st) as [st1 e1].
+    destruct (sweep_loop pin (clamp0 s) (clamp0 e) (Z.max 0 (c_int steps))
+                (c_ulong dq / Z.max 0 (c_int steps))
+                (Z.to_nat (Z.max 0 (c_int steps))) 0 st) as [st1 e1].
     cbn [fst quiet b_last] in *. exact Hl.
   - cbn [dstep]. unfold melody, score in *. destruct (tlookup name tbl) as [[t0 seq]|]; [|reflexivity].
     apply melody_loop_last.
@@ -289,12 +289,12 @@ Proof. apply last_last. Qed.
 
 (* C16_last_frequency_sweep: a sweep whose end frequency is audible leaves get_last_frequency == end *)
 Lemma last_frequency_sweep : forall pin tbl st s e d steps,
-  qle qhalf e = true ->
+  1 <= c_int steps -> qle qhalf e = true ->
   (get_last_frequency (fst (dstep pin tbl st (Sweep s e d steps))) == e)%Q.
 Proof.
-  intros pin tbl st s e d steps He.
+  intros pin tbl st s e d steps Hsteps He.
   rewrite last_frequency_exact. cbn [last_after].
-  set (n := Z.max 1 (c_int steps)).
+  set (n := Z.max 0 (c_int steps)).
   assert (Hn : 1 <= n) by (subst n; lia).
   unfold sweep_freqs.
   assert (Hnat : (0 < Z.to_nat n)%nat) by lia.
@@ -371,7 +371,7 @@ Section Bounded.
       set (p := (inject_Z i / (inject_Z n - (1 # 1)))%Q) in *. nra.
   Qed.
 
-  Lemma sweep_loop_le s e steps sd k : (s <= M)%Q -> (e <= M)%Q -> 1 <= steps ->
+  Lemma sweep_loop_le s e steps sd k : (s <= M)%Q -> (e <= M)%Q -> 0 <= steps ->
     forall a st, Z.of_nat a + Z.of_nat k <= steps -> (b_last st <= M)%Q ->
     Forall P (snd (sweep_loop pin s e steps sd k (Z.of_nat a) st)) /\
     (b_last (fst (sweep_loop pin s e steps sd k (Z.of_nat a) st)) <= M)%Q.
@@ -379,7 +379,7 @@ Section Bounded.
     intros Hs He Hn. induction k as [|k IH]; intros a st Hr Hl; [split; [constructor|exact Hl]|].
     cbn [sweep_loop].
     assert (Hf : qlt q0 (sweep_freq s e steps (Z.of_nat a)) = true -> (sweep_freq s e steps (Z.of_nat a) <= M)%Q).
-    { intros _. apply sweep_freq_le; try assumption. lia. }
+    { intros _. apply sweep_freq_le; try assumption; lia. }
     destruct (sound_le _ st Hf Hl) as [Hs1 Hl1].
     destruct (sound pin (sweep_freq s e steps (Z.of_nat a)) st) as [st1 e1]. cbn [fst snd] in *.
     replace (Z.of_nat a + 1) with (Z.of_nat (S a)) by lia.
@@ -442,15 +442,15 @@ Section Bounded.
         intros _. apply clamph_le. destruct f as [f|]; [apply qle_true; exact Ho|exact Hl]. }
       cbn [fst snd quiet b_last] in *. destruct Hx as [H1 L1]. split; [fb|exact L1].
     - apply andb_true_iff in Ho as [Hs He]. apply qle_true in Hs. apply qle_true in He.
-      cbn [dstep]. unfold sweep.
-      destruct (sweep_loop_le (clamp0 s) (clamp0 e) (Z.max 1 (c_int steps))
-                  (c_ulong dq / Z.max 1 (c_int steps))
-                  (Z.to_nat (Z.max 1 (c_int steps))) (clamp0_le _ Hs) (clamp0_le _ He) ltac:(lia)
+      cbn [dstep]. unfold sweep. rewrite step_delay_of_max.
+      destruct (sweep_loop_le (clamp0 s) (clamp0 e) (Z.max 0 (c_int steps))
+                  (c_ulong dq / Z.max 0 (c_int steps))
+                  (Z.to_nat (Z.max 0 (c_int steps))) (clamp0_le _ Hs) (clamp0_le _ He) ltac:(lia)
                   0%nat st ltac:(lia) Hl) as [H1 L1].
       change (Z.of_nat 0) with 0 in *.
-      destruct (sweep_loop pin (clamp0 s) (clamp0 e) (Z.max 1 (c_int steps))
-                  (c_ulong dq / Z.max 1 (c_int steps))
-                  (Z.to_nat (Z.max 1 (c_int steps))) 0 st) as [st1 e1].
+      destruct (sweep_loop pin (clamp0 s) (clamp0 e) (Z.max 0 (c_int steps))
+                  (c_ulong dq / Z.max 0 (c_int steps))
+                  (Z.to_nat (Z.max 0 (c_int steps))) 0 st) as [st1 e1].
       cbn [fst snd quiet b_last] in *. split; [fb|exact L1].
     - cbn [dstep]. unfold melody, score in *. destruct (tlookup name tbl) as [[t0 seq]|] eqn:El.
       + apply melody_loop_le; [|exact Hl]. apply (notes_le_lookup tbl Ht name t0 seq El).
@@ -749,13 +749,13 @@ Qed.
 (* C16_sweep_delays: every step waits max(0, floor(duration)) / steps ms (integer division), no delay call at
    all when that quotient is 0 *)
 Lemma sweep_delays : forall pin tbl st s e d steps,
-  let n := Z.max 1 (c_int steps) in
+  let n := Z.max 0 (c_int steps) in
   let q := Z.max 0 (Qfloor d) / n in
   delays (snd (dstep pin tbl st (Sweep s e d steps))) =
   if 0 <? q then repeat q (Z.to_nat n) else [].
 Proof.
   intros pin tbl st s e d steps n q. subst q. rewrite <- c_ulong_max.
-  cbn [dstep]. unfold sweep. fold n.
+  cbn [dstep]. unfold sweep. rewrite step_delay_of_max. fold n.
   pose proof (sweep_loop_delay_list pin (clamp0 s) (clamp0 e) n (c_ulong d / n) (Z.to_nat n) 0 st) as Hl.
   destruct (sweep_loop pin (clamp0 s) (clamp0 e) n (c_ulong d / n) (Z.to_nat n) 0 st) as [st1 e1].
   cbn [fst snd] in *. rewrite delays_app, Hl. cbn [delays flat_map]. rewrite app_nil_r. reflexivity.
